@@ -33,6 +33,7 @@ type Obligation struct {
 	Disagree  string   // thorough tier: a solver that returned the opposite definitive verdict
 	Decided  string // non-empty: verdict fixed at generation time (unsat = holds, sat = refuted with Output as reason)
 	Known    bool   // listed as a known finding: expected to fail, short timeout, no retry
+	Replay   *ReplayInfo // how to rebuild the function's inputs from a model (nil: not in the replayable class)
 }
 
 const prelude = `
